@@ -192,6 +192,12 @@ def skeleton_tagfile(skeletons, rng, rich=True, pad_ints=0.0):
                                      ("lodFlags", ARRAY | BYTE, None), ("tupleThing", TUPLE | INT, None), ("scaleHint", REAL, None),
                                      ("revision", INT, None), ("quality", BYTE, None), ("matrix", ARRAY | VEC16, None), ("pairs", ARRAY | VEC8, None)])
         T["hkaBone"][1].append(("unusedFlag", INT, None))
+        # member counts around the byte boundaries of the presence bit field (7 / 8 / 9, 15 / 16 / 17): filler members
+        for cls, target in (("hkaSkeleton", rng.choice([0, 16, 16, 17, 24])), ("hkaAnimationContainer", rng.choice([0, 8, 8, 9])),
+                            ("hkaBone", rng.choice([0, 7, 8, 8, 9, 16]))):
+            have = len(T[cls][1]) + (len(T["hkReferencedObject"][1]) if T[cls][0] == "hkReferencedObject" else 0)
+            for k in range(max(0, target - have)):
+                T[cls][1].append(("filler%d" % k, rng.choice([INT, BYTE, ARRAY | INT, ARRAY | REAL]), None))
         T["hkUnusedThing"] = (None, [("a", INT, None), ("b", ARRAY | STRING, None), ("c", OBJECT, "hkUnusedThing")])
     # emission order: any order in which a parent precedes its children
     names = list(T)
